@@ -229,6 +229,9 @@ func runC19(c *core.Ctx) {
 	var argv []string
 	block := func(cv *cvVar) {
 		n := r.Intn(4)
+		if r.Intn(20) == 0 {
+			n = 8 + r.Intn(5)
+		}
 		var items []gen.Item
 		_ = items
 		for i := 0; i < n; i++ {
